@@ -78,6 +78,24 @@ def original_digest(self):
     }
 
 
+def verified_with_pack(spec):
+    """The verified classes of `spec` that offer a pack, asked rule by rule (not through the
+    library's own scan, which is part of what is judged)."""
+    from comb_spec_searcher.exception import InvalidOperationError
+    from comb_spec_searcher.strategies.rule import VerificationRule
+
+    out = []
+    for c, rule in spec.rules_dict.items():
+        if isinstance(rule, VerificationRule):
+            try:
+                rule.pack()
+            except InvalidOperationError:
+                base.ctx().count("expand.verified_without_pack_seen")
+                continue
+            out.append(c)
+    return out
+
+
 def expansion_ok(self, result, OLD):
     cx = base.ctx()
     cx.count("expand.calls_checked")
@@ -95,7 +113,7 @@ def expansion_ok(self, result, OLD):
                 cx.violation("C19:expanded-specification-wrong-count",
                              f"size {n}: expanded specification gives {got}, truth {want}", {"n": n}, raise_=False)
                 return False
-    left = list(result.unexpanded_verified_classes())
+    left = verified_with_pack(result)
     if left:
         cx.violation("C19:verified-class-left", f"{len(left)} verified classes with a pack remain, e.g. {left[0]!r}",
                      None, raise_=False)
@@ -164,6 +182,8 @@ def gen_cases(tier, seed):
         case["pack"]["ver"] = rng.choice(("prefix1", "prefix2", "prefix1"))
         # nested verification: the pack offered for a verified class verifies again
         case["pack"]["nest"] = intuniv.rng_for(seed, "C19/nest", i).choice((0, 0, 1, 1, 2))
+        # one strategy object verifying some classes with and some without a pack
+        case["pack"]["nopack"] = intuniv.rng_for(seed, "C19/nopack", i).choice((0, 0, 0, 1, 2))
         if rng.random() < 0.5:
             case["pack"]["sym"] = True
             case["pack"]["inferral"] = rng.choice((["minimise"], ["rename", "minimise"], ["merge"], ["deadstat", "rename"]))
@@ -250,7 +270,7 @@ def run_case(case):
         if res.outcome != "spec":
             return {"skip": "no specification"}
         spec = res.spec
-        verified = list(spec.unexpanded_verified_classes())
+        verified = verified_with_pack(spec)
         if not verified:
             return {"skip": "no strategy-verified class in the specification"}
         at_root = spec.root in verified
